@@ -470,10 +470,13 @@ theorem linear_newest (interp : Nat) (d ts : α) (window : Nat) (m0 : Msg α) (b
   have e : (c11_interp_vals : α → α) = id := by funext y; rfl
   simp [interpL, c11_interp_query, c11_interp_knots, e]
 
-/-- **older entries** (`linear_older`): when the slice starts in range (`window ≤ idx_max`), entry `j` is the same
-interpolant evaluated at `ts_start − (x_last − x_j)` where `x` are the sliced knots `idx_max − window … idx_max − 1`
-(for a sender with period `T` and all-real slots that is `ts_start − (window − 1 − j)·T`). -/
-theorem linear_older (interp : Nat) (d ts : α) (window : Nat) (buf : List (Msg α)) (last : α)
+/-- **older entries** (`linear_older`, partial): when the slice starts in range (`window ≤ idx_max`), entry `j` is the
+same interpolant evaluated at `ts_start − (x_last − x_j)` where `x` are the sliced knots `idx_max − window … idx_max − 1`
+(for a sender with period `T` and all-real slots that is `ts_start − (window − 1 − j)·T`).
+MISSING for full strength: the hypothesis `window ≤ idx_max` (at least `window` slots have arrived under the delay).
+It is needed: `linear_older_wrap_witness` below; it holds whenever at most `E = ⌈rate·(max − min)⌉` sender outputs lie
+in `(ts_start − d, ts_start − min]` (C10's spacing hypothesis). -/
+theorem linear_older_partial (interp : Nat) (d ts : α) (window : Nat) (buf : List (Msg α)) (last : α)
     (hwin : (window : Int) ≤ idxMax ts (buf.map (recvOf d)))
     (hlast : (((buf.map (knotOf interp d)).drop (idxMax ts (buf.map (recvOf d)) - window).toNat).take window).getLast? = some last) :
     queries interp d ts window buf =
@@ -736,7 +739,7 @@ theorem interp_knot_needs_strict :
   refine ⟨by simp [SortedKnots], by simp, ?_⟩
   norm_num [interp1]
 
-/-- `linear_older` needs `window ≤ idx_max`: with fewer arrived messages than `window` the slice start is negative,
+/-- `linear_older_partial` needs `window ≤ idx_max`: with fewer arrived messages than `window` the slice start is negative,
 `dynamic_slice` wraps/clamps, and the *older* entry is queried with the spacing of messages that have not arrived yet
 (times in integer units: 4 real messages sent at 0, 10, 20, 30, delay 25, step at 30, window 2: one message has
 arrived, the queries are `[20, 30]`, i.e. the slice taken is the two NEWEST slots). The newest query is still `ts_start`
